@@ -650,6 +650,8 @@ def check_table_get(ctx):
 
 
 def check(ctx):
+    from . import c14
+    c14.check_level_loops(ctx)     # lookups and compaction bookkeeping cover every level
     check_range_fold(ctx)
     check_pick_level0_closure(ctx)
     check_get(ctx)
